@@ -118,7 +118,9 @@ func ZZ_C08_sync_with_api() {
 	node := &networkv1beta1.Node{}
 	node.Spec.NodeMetadata.InstanceID = "i-1"
 	node.Spec.ENISpec = &networkv1beta1.ENISpec{}
-	eni := &networkv1beta1.NetworkInterface{ID: "eni-0", Status: aliyunClient.ENIStatusInUse, NetworkInterfaceType: networkv1beta1.ENITypeSecondary}
+	// the record may hold the interface as in use or as marked for deletion (roll-back of a failed create, pool trimming)
+	recStatus := zz.OneOf("record.status", aliyunClient.ENIStatusInUse, aliyunClient.ENIStatusDeleting)
+	eni := &networkv1beta1.NetworkInterface{ID: "eni-0", Status: recStatus, NetworkInterfaceType: networkv1beta1.ENITypeSecondary}
 	node.Status.NetworkInterfaces = map[string]*networkv1beta1.NetworkInterface{"eni-0": eni}
 	// the record's IPv4 / IPv6 maps: absent (field omitted when empty) or 0..2 entries
 	n4 := zz.Fork("record.v4", 4) - 1
@@ -136,7 +138,8 @@ func ZZ_C08_sync_with_api() {
 	for k, v := range eni.IPv6 {
 		owners[k] = v.PodID
 	}
-	remote := &aliyunClient.NetworkInterface{NetworkInterfaceID: "eni-0", Type: aliyunClient.ENITypeSecondary, Status: aliyunClient.ENIStatusInUse, VSwitchID: "vsw-1"}
+	cloudStatus := zz.OneOf("cloud.status", aliyunClient.ENIStatusInUse, aliyunClient.ENIStatusAttaching, aliyunClient.ENIStatusDetaching)
+	remote := &aliyunClient.NetworkInterface{NetworkInterfaceID: "eni-0", Type: aliyunClient.ENITypeSecondary, Status: cloudStatus, VSwitchID: "vsw-1"}
 	for i := 0; i < 2; i++ {
 		if zz.Bool("cloud.v4." + strconv.Itoa(i)) {
 			remote.PrivateIPSets = append(remote.PrivateIPSets, aliyunClient.IPSet{IPAddress: "a-" + strconv.Itoa(i)})
@@ -158,6 +161,11 @@ func ZZ_C08_sync_with_api() {
 	if got == nil {
 		return
 	}
+	if recStatus == aliyunClient.ENIStatusDeleting {
+		zz.Assert(got.Status == aliyunClient.ENIStatusDeleting, "an interface recorded for deletion stays recorded for deletion whatever the cloud reports (it is never resurrected by a synchronisation)")
+	} else {
+		zz.Assert(got.Status == cloudStatus, "the status of a wanted interface follows the cloud")
+	}
 	zz.Assert(len(got.IPv4) == len(remote.PrivateIPSets) && len(got.IPv6) == len(remote.IPv6Set), "after a full synchronisation record and cloud agree on the number of addresses of the interface")
 	for _, ip := range remote.PrivateIPSets {
 		v, ok := got.IPv4[ip.IPAddress]
@@ -175,7 +183,8 @@ func ZZ_C08_sync_with_api() {
 	}
 	_, added := node.Status.NetworkInterfaces["eni-x"]
 	zz.Assert(added == (len(cloud.describe) == 2), "an interface only the cloud knows is added to the record")
-	zz.Assert(!MetaCtx(ctx).NeedSyncOpenAPI.Load(), "a completed synchronisation clears the resync flag")
+	middle := cloudStatus == aliyunClient.ENIStatusAttaching || cloudStatus == aliyunClient.ENIStatusDetaching
+	zz.Assert(MetaCtx(ctx).NeedSyncOpenAPI.Load() == middle, "a completed synchronisation clears the resync flag; an interface in a transitional state keeps it set (re-synchronised soon)")
 }
 
 // ---------- createENI under faults ----------
